@@ -417,6 +417,11 @@ func H15_json() {
 				vAssert(*b.TouchlessSudo == *a.TouchlessSudo, "C15.json-roundtrip-touchless-sudo")
 			}
 			vReach("C15.json.roundtrip")
+			// the decoded message is the caller's own: a handler that fills in
+			// its touchless-sudo section changes no other message
+			if b.TouchlessSudo != nil {
+				b.TouchlessSudo.IsFirefighter, b.TouchlessSudo.Hosts, b.TouchlessSudo.Time = true, "scribbled", 7
+			}
 		}
 	}
 
